@@ -11,7 +11,8 @@ Part 2 (re-checked on every run against the table regenerated from /repo's sourc
 one common mutex of its object, or is never written after construction, or is a channel /
 sync / atomic object, or is on the reviewed exemption list below; no mutex is re-acquired while
 held; the lock-order graph between the modelled objects is acyclic; user code (hooks, codecs,
-callbacks) runs under a lock exactly at the reviewed sites.
+callbacks) runs under a lock exactly at the reviewed sites; a slice whose backing array leaves a
+critical section through a local alias is never written in place.
 -/
 import Uniflow.Model.LockSem
 import Uniflow.Model.Lockset
@@ -275,9 +276,10 @@ theorem C20.lock_order_acyclic : cyclicLocks = [] := by decide
 /-- User code (packet hooks, load/unload hooks, codecs, iteration callbacks) runs while a mutex
 is held exactly at these reviewed sites; any new call-out under a lock breaks this theorem. -/
 def C20.reviewedCallouts : List (String × String × String) :=
-  [("encoding.DecodeAssembler.Compile", "dyn:encoding.DecodeCompiler.Compile", "encoding.DecodeAssembler.mu"),
+  [-- (the assemblers' `Compile` no longer appears here: compilers re-enter `Compile`, and a nested
+   -- RLock deadlocks with a waiting `Add` – found by the stress program, repaired in a2a0f86;
+   -- holding `mu` across the compilers again breaks `C20.callouts_as_reviewed`)
    ("encoding.DecoderGroup.Decode", "dyn:encoding.Decoder.Decode", "encoding.DecoderGroup.mu"),
-   ("encoding.EncodeAssembler.Compile", "dyn:encoding.EncodeCompiler.Compile", "encoding.EncodeAssembler.mu"),
    ("encoding.EncoderGroup.Encode", "dyn:encoding.Encoder.Encode", "encoding.EncoderGroup.mu"),
    ("packet.Reader.Close", "packet.Hooks.Handle", "packet.Reader.mu"),
    ("packet.Reader.Receive", "packet.Hooks.Handle", "packet.Reader.mu"),
@@ -297,9 +299,7 @@ theorem C20.callouts_as_reviewed : callouts.all (fun c => C20.reviewedCallouts.c
 /-- Every nested acquisition between modelled objects is one of the reviewed edges (a new
 edge breaks this theorem even when it closes no cycle). -/
 def C20.reviewedEdges : List (String × String) :=
-    [("encoding.DecodeAssembler.mu", "encoding.DecoderGroup.mu"),
-     ("encoding.EncodeAssembler.mu", "encoding.EncoderGroup.mu"),
-     ("packet.Tracer.mu", "packet.Reader.mu"),
+    [("packet.Tracer.mu", "packet.Reader.mu"),
      ("packet.Tracer.mu", "packet.Writer.mu"),
      ("packet.Writer.mu", "packet.Reader.mu"),
      ("port.OutPort.mu", "port.InPort.mu"),
@@ -314,6 +314,29 @@ def C20.reviewedEdges : List (String × String) :=
      ("symbol.Table.mu", "process.Process.mu")]
 
 theorem C20.lock_order_reviewed : orderEdges.all (fun e => C20.reviewedEdges.contains e) = true := by decide
+
+/-- Slice fields whose snapshot is taken by the very critical section that also clears the field
+(`closeHooks := p.closeHooks; p.closeHooks = nil` in `Close`; `hooks := l.storeHooks[proc];
+delete(l.storeHooks, proc)` in `Store`/`LoadOrStore`): a later in-place removal works on a
+different (new or nil) slice and cannot reach the snapshot's array. Reviewed. -/
+def C20.clearedOnSnapshot : List (String × String) :=
+  [("port.InPort", "closeHooks"), ("port.OutPort", "closeHooks"), ("process.Local", "storeHooks")]
+
+/-- A slice whose backing array leaves a critical section through a local alias (hook lists
+iterated after the unlock, `OutPort.ins`, the agent's watchers, the assemblers' compiler lists)
+is never written in place anywhere: removal allocates. Found missing by the race detector
+(`RemoveOpenHook`/`Unlink`/`Unwatch` shifted the array a concurrent `Open`/hook was walking). -/
+theorem C20.snapshots_not_written_in_place :
+    snapshotsSafe C20.clearedOnSnapshot sliceSnapshots sliceInPlaceWrites = true := by decide
+
+/-- Non-vacuity: the snapshots exist, and the in-place removals that were in the source before
+the repair (one example per repaired object) would each break the theorem. -/
+theorem C20.snapshots_not_written_in_place_nonvacuous :
+    sliceSnapshots.contains ("port.OutPort", "Open", "ins") = true ∧
+    sliceSnapshots.contains ("runtime.Agent", "hooks", "watchers") = true ∧
+    snapshotsSafe C20.clearedOnSnapshot sliceSnapshots (("port.OutPort", "Unlink", "ins") :: sliceInPlaceWrites) = false ∧
+    snapshotsSafe C20.clearedOnSnapshot sliceSnapshots (("port.InPort", "RemoveOpenHook", "openHooks") :: sliceInPlaceWrites) = false ∧
+    snapshotsSafe C20.clearedOnSnapshot sliceSnapshots (("runtime.Agent", "Unwatch", "watchers") :: sliceInPlaceWrites) = false := by decide
 
 /-- The tables are not empty (the theorems above are not vacuous): e.g. the writer's rows are
 written under its exclusive lock, and some field would fail the rule without its lock. -/
@@ -331,6 +354,7 @@ def C20.reviewedMultiSection : List (String × String × String × Nat) :=
   [ ("port.InPort", "Open", "mu", 3),          -- RLock fast path; Lock with re-check; exit-hook closure
     ("port.OutPort", "Open", "mu", 3),         -- same shape
     ("process.Local", "LoadOrStore", "mu", 3), -- RLock fast path; Lock with re-check; Lock to publish (modelled step by step in C05)
+    ("process.Process", "Fork", "mu", 2),      -- children++ ; the child's wait-done hook closure (children--)
     ("runtime.Agent", "accept", "mu", 3),
     ("runtime.Agent", "hooks", "mu", 2),
     ("store.store", "Watch", "mu", 2) ]        -- Watch itself; the reaper goroutine's closure
